@@ -63,7 +63,7 @@ func sliceScalar() *slice {
 		Bin("+", TStr, TStr, TStr),
 		Bin("contains", TStr, TStr, TBool), Bin("startsWith", TStr, TStr, TBool), Bin("endsWith", TStr, TStr, TBool),
 		Bin("matches", TStr, TStr, TBool),
-		Bin("in", TInt, TIntArr, TBool), Bin("not in", TInt, TIntArr, TBool),
+		Bin("in", TInt, TIntArr, TBool), Bin("not in", TInt, TIntArr, TBool), Bin("in", TFloat, TIntArr, TBool),
 		Bin("in", TStr, TStrArr, TBool), Bin("in", TStr, TMap, TBool), Bin("not in", TStr, TMap, TBool),
 		Bin("..", TInt, TInt, TIntArr),
 		Bin("==", TIntArr, TIntArr, TBool),
@@ -92,6 +92,7 @@ func sliceAccess() *slice {
 		Call("Sum", TInt), Call("Sum", TInt, TInt), Call("Sum", TInt, TInt, TInt),
 		Call("Fast", TAny), Call("Fast", TAny, TInt), Call("Fast", TAny, TStr, TInt),
 		Call("FnInc", TInt, TInt), Call("Add", TInt, TInt, TInt), Call("Cat", TStr, TStr, TStr), Call("IsNil", TBool, TNil), Call("IsNil", TBool, TObj),
+		Call("Second", TAny, TInt, TNil), Call("Second", TAny, TNil, TInt), Call("Second", TAny, TStr, TObj), Method(TObj, "Pick", TAny, false, TInt, TNil),
 		Arr(), Arr(TInt), Arr(TInt, TStr), Arr(TObj),
 		MapLit([]string{"a"}, TInt), MapLit([]string{"a", "b"}, TInt, TStr),
 		Len(TIntArr), Len(TAnyArr), Len(TStr), Len(TAnyMap),
